@@ -109,6 +109,26 @@ def canary(name):
     return ok
 
 
+def falsify_each(name):
+    """thorough vacuity guard: with `false` added to one function's ensures the unit must FAIL
+    (precondition satisfiable, body reachable); returns the list of functions for which it did not"""
+    mod = importlib.import_module("unit_" + name)
+    _, names = mod.build()
+    bad = []
+    for fn in names:
+        path = os.path.join(CACHE, "verus", "%s_falsify_%s.rs" % (name, fn))
+        text, _ = mod.build(falsify=fn)
+        open(path, "w").write(text)
+        rc, js, stderr, wall = run_verus(path)
+        if js is None or js.get("verification-results", {}).get("errors", 0) < 1:
+            bad.append(fn)
+    return names, bad
+
+
+if __name__ == "__main__" and len(sys.argv) > 2 and sys.argv[2] == "falsify":
+    print(falsify_each(sys.argv[1]))
+    sys.exit(0)
+
 if __name__ == "__main__":
     r = unit(sys.argv[1])
     print(r["status"], r.get("verified"), r.get("n_errors"))
